@@ -103,6 +103,19 @@ def run_case(rs, ctx):
         ctx.count("history_raised")
         return
     P = copy.deepcopy(M)
+    fork = None
+    if method != "subprocess" and sh.fitted and rs.integers(2):
+        # a fork: a second copy goes its own way (other data) before the original continues; afterwards it must still answer
+        # like a bandit that was rebuilt from the same history and never had anything to do with the original
+        div = gen.gen_continuation(rs, cfg_cont, sh)
+        R = gen.build(cfg)
+        gen.run_ops(R, hist)
+        try:
+            F2 = twin.clone(M, method)
+        except Exception:  # noqa: BLE001
+            F2 = None
+        if F2 is not None:
+            fork = (F2, R, div, gen.run_ops(F2, div))
     try:
         if method == "subprocess":
             proto = 2 + ctx.index % 4
@@ -133,6 +146,19 @@ def run_case(rs, ctx):
     if d:
         ctx.violation("%s: using the clone (%s, taken %s) changed what the original does: %s" % (gen.cfg_sig(cfg), method, point, d), wit)
         return
+    if fork is not None:
+        F2, R, div, out_f = fork
+        probe = [o_ for o_ in div if o_["op"] in ("predict_expectations", "cold_arms", "policies")]
+        out_r = gen.run_ops(R, div)
+        got, want = json.loads(json.dumps(out_f + gen.run_ops(F2, probe))), json.loads(json.dumps(out_r + gen.run_ops(R, probe)))
+        ctx.ev()
+        ctx.count("fork_checks")
+        d = twin.first_diff(got, want)
+        if d:
+            ctx.violation("%s: a copy (%s, taken %s) that went its own way no longer answers like an independent bandit with the same "
+                          "history once the original was used again: %s" % (gen.cfg_sig(cfg), method, point, d),
+                          dict(wit, fork_continuation=div), kind="fork|" + gen.cfg_sig(cfg))
+            return
     if point in ("after_arm_change", "after_warm_start") or method == "subprocess":
         ctx.nt(gen.cfg_sig(cfg), point, method, "".join(c["op"][0] for c in cont))
     ctx.sample({"cfg": cfg, "copy_point": point, "method": method, "history": [gen.short(x) for x in hist],
